@@ -64,7 +64,6 @@ MUTANTS = [
                                         "        filename = os.path.normpath(os.path.join(self._cwd, ctx.STR().getText()[1:-1].lstrip(\"./\") if ctx.STR().getText()[1:3] == \"./\" else ctx.STR().getText()[1:-1]))\n")]),
  # ---- C13 -------------------------------------------------------------------
  ("c13_digraph_writes_keys", "C13", [(U, "        args = op.get('args', [])\n        kwargs = op.get('kwargs', {})\n", "        args = op.setdefault('args', [])\n        kwargs = op.setdefault('kwargs', {})\n")]),
- ("c13_call_shares_variables", "C13", [(P, "        prog = copy.deepcopy(self)\n", "        prog = copy.copy(self)\n        prog._operations = copy.deepcopy(self._operations)\n        prog._var = dict(self._var)\n        prog._target = copy.deepcopy(self._target)\n        prog._type = copy.deepcopy(self._type)\n        prog._modes = set(self._modes)\n")]),
  ("c13_call_shares_target", "C13", [(P, "        prog = copy.deepcopy(self)\n", "        prog = copy.deepcopy(self)\n        prog._target = self._target\n")]),
  ("c13_failed_call_leaves_parameters_empty", "C13", [(P, "        prog = copy.deepcopy(self)\n        prog._parameters = [] # pylint: disable=protected-access\n",
                                                          "        saved, self._parameters = self._parameters, []\n        prog = copy.deepcopy(self)\n"),
@@ -86,6 +85,8 @@ MUTANTS = [
 ]
 
 EQUIVALENT = [
+ # looked like a regression, is not one: the arrays in `variables` are re-copied later in __call__
+ ("eq_call_shallow_copy_of_variables", "C13", [(P, "        prog = copy.deepcopy(self)\n", "        prog = copy.copy(self)\n        prog._operations = copy.deepcopy(self._operations)\n        prog._var = dict(self._var)\n        prog._target = copy.deepcopy(self._target)\n        prog._type = copy.deepcopy(self._type)\n        prog._modes = set(self._modes)\n")]),
  # correct code whose cleanup lives only in a finally block: an injected interruption must
  # never be placed inside (or below) that block
  ("eq_cleanup_only_in_finally", "C12", [(L, "    _VAR.clear()\n    _PARAMS.clear()\n\n    lexer = blackbirdLexer(data)", "    lexer = blackbirdLexer(data)"),
